@@ -162,6 +162,27 @@ func c12KeywordAfterLeadingRedirect(toks []string) bool {
 	return false
 }
 
+var c12CompoundEnd = map[string]bool{"}": true, ")": true, "fi": true, "done": true, "esac": true}
+
+// c12ReservedRightAfterCompoundRedirect: a compound command end (`}`, `)`,
+// fi, done, esac) is followed by one or more redirection tokens and then
+// directly by a reserved word.
+func c12ReservedRightAfterCompoundRedirect(toks []string) bool {
+	for i := 1; i < len(toks); i++ {
+		if !c12IsRedir(toks[i]) || !c12CompoundEnd[toks[i-1]] {
+			continue
+		}
+		j := i
+		for j < len(toks) && c12IsRedir(toks[j]) {
+			j++
+		}
+		if j < len(toks) && c12Reserved[toks[j]] {
+			return true
+		}
+	}
+	return false
+}
+
 // c12Class names the narrow family of a divergence that is not intentional
 // ("" = unclassified).
 func c12Class(lang string, toks []string, src, perr string, shellAccepts bool) string {
@@ -186,6 +207,9 @@ func c12Class(lang string, toks []string, src, perr string, shellAccepts bool) s
 		}
 		if lang == "bash" && simple {
 			return "bash-accepts-function-body-that-is-not-a-compound-command"
+		}
+		if c12ReservedRightAfterCompoundRedirect(toks) {
+			return "accepts-reserved-word-right-after-redirect-of-compound-command"
 		}
 		return ""
 	}
